@@ -43,8 +43,9 @@ type travInfo struct {
 	negIndex     bool
 }
 
-// refTraverse is the reference: stepwise descent using only Index,
-// ConvertStack, ConvertCondition and Expression.
+// refTraverse is the reference: stepwise descent using only Index and Expression; which values are
+// Stacks / Conditions is decided by the harness's own type switch (unwrapStack / unwrapCond), not by
+// the library's converters (a converter that goes wrong would otherwise mislead both sides alike).
 func refTraverse(s stackage.Stack, path []int) (any, bool, travInfo) {
 	info := travInfo{failStep: -1}
 	if len(path) == 0 {
@@ -71,14 +72,14 @@ func refTraverse(s stackage.Stack, path []int) (any, bool, travInfo) {
 			return v, true, info
 		}
 		descended := false
-		if st, ok := stackage.ConvertStack(v); ok {
+		if st, ok := unwrapStack(v); ok {
 			if _, native := v.(stackage.Stack); !native {
 				info.viaAlias = true
 			}
 			cur = st
 			descended = true
-		} else if c, ok := stackage.ConvertCondition(v); ok {
-			if st, ok := stackage.ConvertStack(c.Expression()); ok {
+		} else if c, ok := unwrapCond(v); ok {
+			if st, ok := unwrapStack(c.Expression()); ok {
 				cur = st
 				descended = true
 			} else {
@@ -92,7 +93,7 @@ func refTraverse(s stackage.Stack, path []int) (any, bool, travInfo) {
 			for _, later := range path[i+1:] {
 				if lv, ok := cur.Index(later); ok {
 					info.laterHits = true
-					if _, isS := stackage.ConvertStack(lv); isS {
+					if _, isS := unwrapStack(lv); isS {
 						info.laterHitsStk = true
 					}
 				}
@@ -262,12 +263,13 @@ func init() {
 		ID: "C07",
 		Rule: "rapid-generated trees (depth<=4, width<=4/5) of stacks of all kinds with leaves, nil slots, Conditions with stack / non-stack expressions, alias wrappings and per-node negative/forward index options; " +
 			"per tree 20/30 paths (half random over [-1,width+1] with occasional huge indices, half structured: follow the tree, step onto a non-descendable element, continue with indices valid for the current stack) and, for a quarter of the small trees, " +
-			"every path of length <=3 over [-1,width+1]. Oracle: Traverse must equal the stepwise descent computed with Index/ConvertStack/ConvertCondition/Expression only (values compared by underlying instance identity). " +
+			"every path of length <=3 over [-1,width+1]. Oracle: Traverse must equal the stepwise descent computed with Index/Expression and the harness's own type switch over its wrap forms (values compared by underlying instance identity). " +
 			"non-trivial = the case contains a path of length >=2 whose stepwise descent fails before its last index while a later index addresses an existing element of the same stack; distinct = distinct case JSON",
 		Gen: genC07,
 		Run: runC07,
 		Floors: map[string]float64{"fail-then-later-index-hits": 0.3, "fail-then-later-index-hits-stack": 0.03, "fails-at-leaf": 0.3, "fails-at-nil-slot": 0.05,
 			"fails-at-cond-without-stack": 0.05, "through-alias": 0.1, "negative-index": 0.2, "succeeds-depth-3": 0.05, "all-paths<=3": 0.03},
-		Assumptions: []string{"all stacks in the tree are initialised (zero-valued Stack elements are C08's domain)"},
+		Assumptions: []string{"all stacks in the tree are initialised (zero-valued Stack elements are C08's domain)",
+			"no stack on a path carries a validity closure that rejects it: Traverse consults Valid() at every level and returns nothing for a stack its owner declared invalid; the statement does not speak about such stacks, so none are generated (an error recorded with SetErr, by contrast, is generated: it must not matter)"},
 	})
 }
